@@ -49,7 +49,8 @@ PROBES = ["image_moved_between_redraws", "image_disappeared", "bare_non_composit
           "kitty_widget_spec_with_z_index_field", "redraw_interrupted",
           "images_rerendered_in_place", "stray_image_before_start",
           "redraw_while_resize_pending", "same_canvas_drawn_again_after_interrupt",
-          "overlay_aimed_at_one_side_of_an_image"]
+          "overlay_aimed_at_one_side_of_an_image",
+          "earlier_canvas_drawn_again_after_interrupt"]
 COMPONENTS = {
     "real": ["UrwidImageScreen (draw_screen, clear, clear_images, _start, _stop, "
              "_ti_clear_images)", "UrwidImage / UrwidImageCanvas", "KittyImage / ITerm2Image / "
@@ -393,6 +394,7 @@ def run(ch, ctx, fault=None):
         earlier = []
         queue = []
         forced_aim = [False]
+        last_canvas = [None]     # (canvas, size) of the last completed redraw, while still usable
         i = -1
         while True:
             i += 1
@@ -421,6 +423,9 @@ def run(ch, ctx, fault=None):
                 queue = ["move_away", "draw", "move_aimed", "draw"]
                 continue
             desc = op
+            if op not in ("draw", "draw_interrupted", "layout", "scroll", "grid_edit",
+                          "move_overlay", "move_away", "move_aimed"):
+                last_canvas[0] = None
             if op == "move_away":
                 if layout["kind"] != "overlay":
                     del queue[:]
@@ -504,6 +509,7 @@ def run(ch, ctx, fault=None):
                       {"layout": repr(layout)[:200]}, "draw")
                 redraws[0] += 1
                 ctx.probe("ghost_free_redraws")
+                last_canvas[0] = (canvas, (size[0], size[1]))
             elif op == "draw_interrupted":
                 # Ctrl-C lands inside a redraw and the application carries on with its loop
                 if force_new[0]:
@@ -568,6 +574,29 @@ def run(ch, ctx, fault=None):
                                          "layout": repr(layout)[:300],
                                          "history": key[-8:] + [desc]}, "draw")
                     ctx.probe("same_canvas_drawn_again_after_interrupt")
+                elif hit and last_canvas[0] and last_canvas[0][1] == (size[0], size[1]) \
+                        and last_canvas[0][0] is not canvas and ch.bool("earlier_canvas_again", 0.6):
+                    # ... or what was being shown is dismissed again and the widget tree is
+                    # back to what it was: the canvas of the last completed redraw comes out of
+                    # the cache, the very same object.  urwid paints nothing for it (it has
+                    # that canvas on record as displayed), so only this much is certain: no
+                    # image that is not part of it stays on the terminal.  The application
+                    # then repaints in full.
+                    prev_canv = last_canvas[0][0]
+                    screen.draw_screen((size[0], size[1]), prev_canv)
+                    out.drain()
+                    check(not vt.synced, "synchronized_update_left_open", {}, "draw")
+                    desc += "; the canvas of the last completed redraw drawn again"
+                    exp_p = reference(prev_canv).placement_keys()
+                    ghosts = [p for p in vt.placement_keys() if p not in exp_p]
+                    if ghosts:
+                        raise Violation("ghost_image", {"ghosts": ghosts[:5], "missing": [],
+                                                        "layout": repr(layout)[:300],
+                                                        "history": key[-8:] + [desc]}, "draw")
+                    ctx.probe("earlier_canvas_drawn_again_after_interrupt")
+                    screen.clear()
+                    out.drain()
+                last_canvas[0] = None
             elif op == "swap_toggle":
                 # the application corrects the reported window dimensions (win-size swap): the
                 # cell size the library works with changes at an unchanged terminal size, the
